@@ -176,6 +176,13 @@ def reparse_check(msgs, viol, rep):
 
 def check_state(sysm, p, path, res, viol):
     specs = sysm.specs
+    # one request BEFORE anything in the harness has read the driver's values: reading .value raises the Read event,
+    # so a definition must do that itself (a Read handler refreshes the element "from the hardware")
+    first = None
+    try:
+        first = sysm.request(specs[0]["name"], "TGT")
+    except Exception:
+        first = None  # reported by the request loop below
     try:
         truths = sysm.truth()
     except DM.Missing as e:
@@ -183,6 +190,14 @@ def check_state(sysm, p, path, res, viol):
         return False
     names = [s["name"] for s in specs]
     vnames = sorted({vn for t in truths for vn in t})
+    for m in first or ():
+        if type(m).__name__.startswith("Def") and m.name == "TGT":
+            try:
+                probs = DM.check_def_view(X.view_of_xml(m.to_string()), m.device, truths[0]["TGT"])
+            except Exception:
+                probs = []
+            if probs:
+                viol("definition-content", "kind=%s,first-request,%s" % (truths[0]["TGT"]["kind"], probs[0].split(" ")[0]), "first request after %r: %r" % (path, probs), {"p": p, "path": path, "req": [specs[0]["name"], "TGT"]})
     # the drivers' own .enabled attributes must agree with the history of enabling operations
     fl = sysm.flags
     for vn, want in (("TGT", fl["vec"] and fl["grp"]), ("OTHER", fl["by"])):
